@@ -25,7 +25,7 @@ ASSUMPTIONS = [
     "item order and nesting)",
     "both nserve.make_collection_id and serve.make_collection_id are checked",
 ]
-REQUIRED = {"probe_processes_with_other_hash_seed": 6, "roundtrips": 500, "id_invariance_checks": 1000, "id_sensitivity_pairs": 1000, "isolation_rechecks": 200,
+REQUIRED = {"concurrent_request_rounds": 100, "probe_processes_with_other_hash_seed": 6, "roundtrips": 500, "id_invariance_checks": 1000, "id_sensitivity_pairs": 1000, "isolation_rechecks": 200,
             "with_chapters": 100, "with_extra_fields": 100, "non_nfkc_titles": 50}
 LEVEL_TEXT = ("Exploration: 2e4 (quick) / 1e6 (thorough) generated metabooks and request pairs run through the real "
               "serialisation and id code in long-lived processes (so that state carried between requests shows); five "
@@ -197,6 +197,77 @@ def plan(tier, seed):
     return [{"shard": i, "count": per, "seed": seed} for i in range(n)]
 
 
+def concurrent_requests(R, rnd, rounds):
+    """two render requests dispatched concurrently through the server's own dispatch function (the queue client
+    yields inside qadd, as a socket would): each answer and each queued job must carry the id of its own request"""
+    import contextlib
+    import io
+    import gevent
+    from mwlib.core import nserve
+
+    calls = []
+
+    class FakeProxy:
+        def __init__(self, host=None, port=None):
+            pass
+
+        def qadd(self, **kw):
+            gevent.sleep(0)
+            calls.append(kw)
+            gevent.sleep(0)
+            return kw.get("jobid")
+
+    class Params(dict):     # like bottle's FormsDict: a mapping that also has a __dict__
+        pass
+
+    class Req:
+        def __init__(self, params):
+            self.params = Params(params)
+            self.url = "http://render.test/"
+
+    saved = (nserve.rpcclient.ServerProxy, nserve.choose_idle_qserve, nserve.request)
+    nserve.rpcclient.ServerProxy = FakeProxy
+    nserve.choose_idle_qserve = lambda: ("qs.test", 14311)
+    try:
+        for _ in range(rounds):
+            reqs = []
+            for j in range(rnd.randint(2, 3)):
+                d = gen_desc(rnd, 3)
+                reqs.append({"command": "render", "writer": "rl", "base_url": rnd.choice(WIKI_URLS), "script_extension": ".php",
+                             "metabook": json.dumps(d)})
+            with contextlib.redirect_stdout(io.StringIO()):
+                want = [nserve.make_collection_id(p) for p in reqs]
+            if len(set(want)) != len(want):
+                continue
+            del calls[:]
+            answers = [None] * len(reqs)
+
+            def go(i):
+                nserve.request = Req(reqs[i])
+                with contextlib.redirect_stdout(io.StringIO()):
+                    answers[i] = nserve.dispatch_command("/")
+
+            gs = [gevent.spawn(go, i) for i in range(len(reqs))]
+            gevent.joinall(gs, timeout=30)
+            R.count("concurrent_request_rounds")
+            case = {"concurrent": reqs}
+            for i, a in enumerate(answers):
+                if not isinstance(a, dict) or a.get("collection_id") != want[i]:
+                    R.violation("L3:concurrent-requests-mix-ids:answer", "request %d was answered with collection id %r, its own id is %r" % (
+                        i, (a or {}).get("collection_id") if isinstance(a, dict) else a, want[i]), case)
+                    break
+            else:
+                for kw in calls:
+                    mbk = kw["payload"]["params"].get("metabook_data")
+                    owner = [i for i, p in enumerate(reqs) if p["metabook"] == mbk]
+                    if not owner or not str(kw["jobid"]).startswith(want[owner[0]] + ":"):
+                        R.violation("L3:concurrent-requests-mix-ids:job", "a job for the metabook of request %r was queued as %r" % (
+                            owner, kw["jobid"]), case)
+                        break
+    finally:
+        nserve.rpcclient.ServerProxy, nserve.choose_idle_qserve, nserve.request = saved
+
+
 def run_shard(desc_, R):
     import contextlib
     import io
@@ -237,6 +308,11 @@ def run_shard(desc_, R):
                         R.seen("probe_id_" + k, v)
                     R.count("probe_processes_with_other_hash_seed")
 
+    concurrent_requests(R, rnd, 20)
+    # in-place growth of one book's wiki / licence lists (as set_environment and the apps do) must stay in that book
+    grown = metabook.Collection()
+    grown.wikis.append(metabook.WikiConf(baseurl="http://grown.test/w/", ident="g"))
+    grown.licenses.append({"mw_rights_text": "L", "name": "L"})
     for _ in range(desc_["count"]):
         d = gen_desc(rnd, rnd.choice((2, 6, 12, 30)))
         case = {"desc": d}
